@@ -131,16 +131,18 @@ func (s *ServerKeyStore) destroyCurrentKeyPair(ring api.MutableKeyRing) error {
 }
 
 func (s *ServerKeyStore) describeNewKeyPair(keypair *keys.Keypair) api.KeyDescription {
+	data := api.KeyData{Format: api.ThemisKeyPairFormat}
+	// Only one half of the key pair may be present (e.g., a key store v1 holding only public keys).
+	if keypair.Public != nil {
+		data.PublicKey = keypair.Public.Value
+	}
+	if keypair.Private != nil {
+		data.PrivateKey = keypair.Private.Value
+	}
 	return api.KeyDescription{
 		ValidSince: time.Now(),
 		ValidUntil: time.Now().Add(defaultKeyCryptoperiod),
-		Data: []api.KeyData{
-			{
-				Format:     api.ThemisKeyPairFormat,
-				PublicKey:  keypair.Public.Value,
-				PrivateKey: keypair.Private.Value,
-			},
-		},
+		Data:       []api.KeyData{data},
 	}
 }
 
